@@ -189,9 +189,13 @@ class EnvSpec:
             if abi_impl != "none":
                 if not abi_impl.startswith(python_tag.lower()):
                     return None
+                # only ABI flags (d, m, u, t) may follow the python tag: cp31 is not cp310
+                abi_flags = abi_impl[len(python_tag) :]
+                if abi_flags[:1].isdigit():
+                    return None
                 if (
                     free_threaded is not None
-                    and abi_impl.endswith("t") is not free_threaded
+                    and ("t" in abi_flags) is not free_threaded
                 ):
                     return None
             if major and minor and impl == "py":
